@@ -13,7 +13,7 @@ From Verif.Base Require Import Bytes.
 From Verif.Codec Require Import Packets Decode Encode.
 From Verif.Gateway Require Import GwTypes GwStep GwWf GwRun Sound_C16 Sound_C16b.
 From Verif.Client Require Import ClTypes ClStep Sound_Client.
-From Verif.System Require Import Compose ComposeProofs ComposeProofs2_aux ComposeProofs2 ComposeLoss ComposeLoss2 ComposeSleep ComposeSleepLoss.
+From Verif.System Require Import Compose ComposeProofs ComposeProofs2_aux ComposeProofs2 ComposeLoss ComposeLoss2 ComposeLoss3_aux ComposeLoss3 ComposeSleep ComposeSleepLoss.
 From Verif.Checkers Require Import ChkCodec ChkGw ChkGw5 ChkCl.
 Open Scope N_scope.
 
@@ -160,3 +160,37 @@ Theorem C16_sleep_survives_a_lost_disconnect_reply :
       y_c2g_k y' = S (S (y_c2g_k y)) /\ y_g2c_k y' = S (S (y_g2c_k y)).
 Proof. exact ComposeSleepLoss.C16_sleep_survives_a_lost_disconnect_reply. Qed.
 Print Assumptions C16_sleep_survives_a_lost_disconnect_reply.
+
+(* QoS 2 under ANY loss pattern within the budget, both phases (System/ComposeLoss3.v).  rs1 / rs2 list the failed
+   rounds of phase 1 (PUBLISH -> PUBREC) and phase 2 (PUBREL -> PUBCOMP): true = the gateway's datagram of the round
+   is lost, false = it is delivered and the client's answer is lost; at most RetryCount failed rounds per phase
+   (faults1 turns the pattern into the link's fault positions).  The whole run is the exact trace trace1 (retransmitted
+   PUBLISHes with DUP; a duplicate PUBLISH is answered with PUBREC again without a handler invocation; the handler
+   runs at the first PUBREL that arrives; a repeated PUBREL is answered with PUBCOMP again), after which client and
+   gateway are quiescent with the subscriptions in place.  trace1_facts: the handler runs EXACTLY once, the broker
+   receives exactly PUBREC then PUBCOMP. *)
+Theorem C16_qos2_survives_any_loss_pattern :
+  forall cfg y subs s dup retain mid payload rs1 rs2 d,
+    QuietS cfg y subs -> In s subs -> 1 <= mid < 65536 -> okb payload = true ->
+    0 < retry_delay (e_gw cfg) ->
+    N.of_nat (length rs1) <= retry_count (e_gw cfg) -> N.of_nat (length rs2) <= retry_count (e_gw cfg) ->
+    N.of_nat (length rs1 + length rs2) < 99990 ->
+    faults1 cfg rs1 rs2 (y_c2g_k y) (y_g2c_k y) ->
+    N.of_nat (length rs1 + length rs2) * retry_delay (e_gw cfg) <= d ->
+    let t := gw_now (y_gw y) in
+    let m := MqPublish dup 2 retain (sub_topic s) mid payload in
+    exists y1 y2 tr1 tr2,
+      sys_step cfg y (SBpub m) = (y1, tr1) /\ sys_step cfg y1 (SAdv d) = (y2, tr2) /\
+      tr1 ++ tr2 = SoBS t m :: trace1 retain (sub_topic s) mid payload [sub_id s] (retry_delay (e_gw cfg)) rs1 rs2 t dup /\
+      QuietS cfg y2 subs /\ gw_now (y_gw y2) = t + d.
+Proof. exact ComposeLoss3.C16_qos2_survives_any_loss_pattern. Qed.
+Print Assumptions C16_qos2_survives_any_loss_pattern.
+
+Theorem C16_qos2_loss_pattern_delivery :
+  forall retain topic mid payload h rd rs2 rs1 T dp,
+    cbs_full (trace1 retain topic mid payload [h] rd rs1 rs2 T dp) =
+      [(h, topic, payload, 2, retain, match rs1 with [] => dp | _ => true end, mid)] /\
+    brs_of (trace1 retain topic mid payload [h] rd rs1 rs2 T dp) = [MqPubrec mid; MqPubcomp mid] /\
+    rets_of (trace1 retain topic mid payload [h] rd rs1 rs2 T dp) = [].
+Proof. exact trace1_facts. Qed.
+Print Assumptions C16_qos2_loss_pattern_delivery.
